@@ -88,9 +88,23 @@ def run_case(scn, drv):
     except Exception as e:
         viol('set-up with fix_time_window raised %s: %s' % (type(e).__name__, str(e)[:200]), what='raises', err=impl.err_class(e))
         return r
-    if not (np.array_equal(np.asarray(user['x']), user_snapshot['x']) and (
-            np.array_equal(user['I'], user_snapshot['I']) if isinstance(user_snapshot['I'], np.ndarray) else user['I'] == user_snapshot['I'])):
+    def same(a, b):
+        if isinstance(a, np.ndarray) or isinstance(b, np.ndarray):
+            return type(a) is type(b) and np.array_equal(a, b)
+        return a == b
+    if not (same(np.asarray(user['x']), user_snapshot['x']) and same(user['I'], user_snapshot['I'])):
         feats.append('user-dict-changed')
+    # the window description is the caller's: handing the SAME dictionary over again (as the split set-up does for every
+    # interval, or a rolling re-optimisation does) must pin the same part of the solution
+    try:
+        with Quiet():
+            op_fix2 = portf.setup_optim_problem(prices2, tg, fix_time_window=user)
+        if not (np.array_equal(op_fix2.l, op_fix.l) and np.array_equal(op_fix2.u, op_fix.u)):
+            j = int(np.argmax((np.asarray(op_fix2.l) != np.asarray(op_fix.l)) | (np.asarray(op_fix2.u) != np.asarray(op_fix.u))))
+            viol('the same fix_time_window dictionary handed over a second time pins a different part: variable %d has bounds [%s, %s], first time [%s, %s]' % (
+                j, op_fix2.l[j], op_fix2.u[j], op_fix.l[j], op_fix.u[j]), what='second_use')
+    except Exception as e:
+        viol('the same fix_time_window dictionary handed over a second time raises %s: %s' % (type(e).__name__, str(e)[:160]), what='second_use', err=impl.err_class(e))
     m = op_fix.mapping
     fixed_vars = sorted(set(int(i) for i in m.index[m['time_step'].isin(steps)]))
     free_vars = [j for j in range(len(op_fix.c)) if j not in set(fixed_vars)]
@@ -160,6 +174,41 @@ def run_case(scn, drv):
                 viol('with unchanged prices the optimal value changed from %.8g to %.8g' % (v0, res3.value), what='value_changed')
     except Exception as e:
         viol('set-up with fix_time_window and old prices raised %s' % type(e).__name__, what='raises', err=impl.err_class(e))
+    # (4) split set-up with a window (date) inside the first interval: the same dictionary goes to every interval; only the
+    #     steps up to the date are pinned, in every other interval everything stays free
+    if fx['mode'] == 'date' and tg.T >= 4:
+        try:
+            interval = pf.split_interval(scn, tg, parts=2)
+            k_int = max(1, tg.T // 2)
+            j = min(fx['k'], k_int - 1)
+            d2 = tg.timepoints[j].to_pydatetime()
+            rs0 = pf.setup_split(scn, interval)
+            pf.solve_rec(rs0)
+            if not isinstance(rs0['res'], str) and len(getattr(rs0['op'], 'ops', [])) >= 2:
+                xs = np.array(rs0['res'].x, dtype=float)
+                with Quiet():
+                    op_sf = rs0['portf'].setup_split_optim_problem(rs0['prices'], rs0['tg'], interval_size=interval, fix_time_window={'I': d2, 'x': xs.copy()})
+                feats.append('split-fix')
+                r['evaluated'] += 1
+                ms = op_sf.mapping
+                op_s0 = rs0['op']
+                if len(op_sf.c) != len(op_s0.c):
+                    viol('split set-up with a fixed window has %d variables, without %d' % (len(op_sf.c), len(op_s0.c)), what='split_fix_sizes')
+                else:
+                    pinned = set(int(i) for i in ms.index[ms['time_step'] <= int(tg.I[j])])
+                    lf, uf = np.concatenate([o.l for o in op_sf.ops]), np.concatenate([o.u for o in op_sf.ops])
+                    l0, u0 = np.concatenate([o.l for o in op_s0.ops]), np.concatenate([o.u for o in op_s0.ops])
+                    for v in range(len(op_sf.c)):
+                        if v in pinned:
+                            if not (lf[v] == xs[v] and uf[v] == xs[v]):
+                                viol('split set-up: variable %d belongs to a step in the fixed window (up to step %d) but has bounds [%s, %s], previous value %s' % (v, j, lf[v], uf[v], xs[v]), what='split_not_pinned')
+                                break
+                        elif not (lf[v] == l0[v] and uf[v] == u0[v]):
+                            viol('split set-up: variable %d has no step in the fixed window (up to step %d) but its bounds changed from [%s, %s] to [%s, %s]' % (
+                                v, j, l0[v], u0[v], lf[v], uf[v]), what='split_free_changed')
+                            break
+        except Exception as e:
+            feats.append('split-fix-error:' + impl.err_class(e))
     if m.index.duplicated().any():
         feats.append('several-rows-per-variable')
     r['nontrivial'] = 0 < len(fixed_vars) < len(op_fix.c) and bool(np.abs(x0[fixed_vars]).max() > 1e-9)
